@@ -134,7 +134,11 @@ pub fn panic_catcher_set_hook() {
     if PANIC_CATCHER_HOOK_SET.load(Ordering::SeqCst) {
         return;
     }
+    #[cfg(feature = "verif-hooks")]
+    crate::verif::hook_install_pause(false);
     let next = std::panic::take_hook();
+    #[cfg(feature = "verif-hooks")]
+    crate::verif::hook_install_pause(true);
     std::panic::set_hook(Box::new(move |info| {
         if PANIC_CATCHER_LEVEL.with(|enabled| enabled.get() > 0) {
             PANIC_CATCHER_BACKTRACE.with(|bt| {
